@@ -7,7 +7,7 @@ from props import judges
 from props.common import TRUSTED_BASE, ASSUMPTIONS
 
 ID = "C09"
-LEAN_MODULES = ["LexVerif.Props.C09", "LexVerif.Props.Literals.WriteFloatOptions", "LexVerif.Props.Literals.WriteFloatWrite", "LexVerif.Props.Literals.WriteFloatAlgorithm", "LexVerif.Props.Literals.WriteFloatCompact", "LexVerif.Props.Literals.WriteFloatShared", "LexVerif.Props.Literals.WriteFloatBinary", "LexVerif.Props.Literals.WriteFloatHex", "LexVerif.Props.Literals.WriteFloatRadix", "LexVerif.Props.Literals.WriteIntegerAlgorithm", "LexVerif.Props.Literals.WriteIntegerJeaiii", "LexVerif.Props.Literals.UtilConstants", "LexVerif.Props.Literals.UtilOptions", "LexVerif.Props.Literals.FacadeLib"]
+LEAN_MODULES = ["LexVerif.Props.Literals.WriteFloatIndex", "LexVerif.Props.Literals.WriteIntegerOptions", "LexVerif.Props.C09", "LexVerif.Props.Literals.WriteFloatOptions", "LexVerif.Props.Literals.WriteFloatWrite", "LexVerif.Props.Literals.WriteFloatAlgorithm", "LexVerif.Props.Literals.WriteFloatCompact", "LexVerif.Props.Literals.WriteFloatShared", "LexVerif.Props.Literals.WriteFloatBinary", "LexVerif.Props.Literals.WriteFloatHex", "LexVerif.Props.Literals.WriteFloatRadix", "LexVerif.Props.Literals.WriteIntegerAlgorithm", "LexVerif.Props.Literals.WriteIntegerJeaiii", "LexVerif.Props.Literals.UtilConstants", "LexVerif.Props.Literals.UtilOptions", "LexVerif.Props.Literals.FacadeLib"]
 GEN = ["write_tables", "literals"]
 TRUSTED = TRUSTED_BASE + [
     "real stray reads/writes cannot be exhibited by the Lean model: the harness places every buffer against PROT_NONE pages "
